@@ -49,25 +49,22 @@ def main():
     res['demo_without_change_rc'] = rc0
     confirmed = ('454 passed' in res['suite_with_change']) and rc1 != 0 and rc0 == 0
     res['confirmed'] = confirmed
-    # run the checks against /repo with the patch applied, always undo
-    rc, out = sh('git -C /repo status --porcelain')
-    if out.strip():
-        sys.exit('/repo is not clean: %s' % out)
-    rc, out = sh('git -C /repo apply %s' % patch)
+    # run the checks against a scratch copy of /repo with the patch applied (never /repo itself)
+    var = '/dev/shm/seed_eval_%d' % os.getpid()
+    rc, out = sh('sh /verif/tools/mkvariant.sh %s %s' % (patch, var))
     if rc:
-        sys.exit('patch does not apply to /repo: %s' % out)
+        sys.exit('patch does not apply to a copy of /repo: %s' % out)
     caught = {}
     try:
         man = json.load(open('/verif/MANIFEST.json'))
         for c in man['checks']:
             pid = c['property_id']
-            rc, out = sh('python3 sa/check.py %s --no-evidence --evidence-dir /tmp/seed_ev' % pid, '/verif')
+            rc, out = sh('python3 sa/check.py %s --no-evidence --no-selftest --repo %s' % (pid, var), '/verif')
             if rc != 0:
                 lines = [l.strip() for l in out.splitlines() if l.startswith('  pyx12') or l.startswith('  setup') or l.startswith('ANALYSIS')]
                 caught[pid] = {'rc': rc, 'reports': lines[:4]}
     finally:
-        sh('git -C /repo checkout -- .')
-        shutil.rmtree('/tmp/seed_ev', ignore_errors=True)
+        shutil.rmtree(var, ignore_errors=True)
     res['caught_by'] = caught
     print(json.dumps(res, indent=1))
     if keep:
@@ -79,7 +76,7 @@ def main():
                 'what_i_ran': ['cd <scratch worktree> && /venv/bin/python -m pytest -q -p no:cacheprovider pyx12/test  -> %s' % res['suite_with_change'],
                                '/venv/bin/python %s with the change -> exit %d' % (demo, rc1),
                                '/venv/bin/python %s without the change (git apply -R) -> exit %d' % (demo, rc0),
-                               'git -C /repo apply patch.diff; python3 sa/check.py <every property>; git -C /repo checkout -- .'],
+                               'scratch copy of /repo + patch.diff; python3 sa/check.py <every property> --repo <copy>'],
                 'caught_by': caught, 'needs_to_manifest': '', 'summary': ''}
         mp = os.path.join(d, 'meta.json')
         if os.path.exists(mp):
